@@ -91,6 +91,14 @@ def opLoop (args : List String) (impl : String) : Verdict :=
       l1 label ("C15: " ++ toString conns ++ " health-check connections opened, " ++ toString answered ++ " answered after the worker was given enough calls")
     else if tooMany then l1 label ("C19: one process_events call answered more than 16*batch_size datagrams")
     else
+    -- C17: the recorder's totals at the end equal the traffic served (valid requests, dropped datagrams, health checks, replies)
+    let recS := kvLookup imp "rec"
+    let nValid := countWhere steps (fun s => s.startsWith "c" || s.startsWith "i")
+    let nInvalid := countWhere steps (fun s => s.startsWith "x")
+    let expectRec := toString nValid ++ "." ++ toString nInvalid ++ "." ++ toString conns ++ "." ++ toString allReplies.length
+    if recS ≠ "" ∧ recS ≠ expectRec then
+      l1 label ("C17: recorded valid.invalid.health-checks.responses = " ++ recS ++ ", the traffic served was " ++ expectRec)
+    else
     -- L2 -------------------------------------------------------------------------------------
     match Server.new cheapEnv (List.replicate 32 7) (List.replicate 32 1) (List.replicate 32 2) batch with
     | .ok srv =>
